@@ -47,6 +47,7 @@ LeafVal == [
   kg    |-> Fin(R(1), M1),
   gram  |-> Fin(<<1, 1000>>, M1),
   newton |-> Fin(R(1), Force),
+  hz    |-> Fin(R(1), DInv(T1)),        \* hertz: its Dimension object is "frequency", equivalent to 1/time
   joule |-> Fin(R(1), Energy),
   rad   |-> Fin(R(1), D1),              \* SymPy's radian is a dimensionless unit of scale 1
   kilo  |-> Fin(R(1000), D1),           \* symplyphysics prefix (a plain number)
@@ -60,8 +61,8 @@ LeafVal == [
   deriv |-> Err                         \* an unevaluated derivative
 ]
 
-AllOps == {"mul2", "mul3", "add2", "add3", "pow", "abs", "min2", "max2", "exp"}
-Arity(o) == CASE o \in {"mul2", "add2", "pow", "min2", "max2"} -> 2
+AllOps == {"mul2", "mul3", "add2", "add3", "pow", "abs", "min2", "max2", "exp", "atan2"}
+Arity(o) == CASE o \in {"mul2", "add2", "pow", "min2", "max2", "atan2"} -> 2
               [] o \in {"mul3", "add3"} -> 3
               [] OTHER -> 1
 
@@ -99,6 +100,8 @@ Apply(o) ==
                         /\ stack' = Append(Pop(2), MinMax(FALSE, Top(1), Top(0)))
        [] o = "exp"  -> /\ FuncDefined(Top(0))
                         /\ stack' = Append(Pop(1), FuncSem(Top(0)))
+       [] o = "atan2" -> /\ Func2Defined(Top(1), Top(0))
+                         /\ stack' = Append(Pop(2), Func2Sem(Top(1), Top(0)))
 
 Next == (\E l \in LeafNames : Push(l)) \/ (\E o \in OpNames : Apply(o))
 
